@@ -87,8 +87,6 @@ var docExceptions = map[string][]excSpec{
 	"(*keyset.MemReaderWriter).ReadEncrypted":                                 {{0, false, true, whyMemRW}, {-1, false, false, whyMemRW}},
 	"(*keyset.MemReaderWriter).Write":                                         {{0, false, true, whyMemRW}, {1, false, true, whyMemRW}},
 	"(*keyset.MemReaderWriter).WriteEncrypted":                                {{0, false, true, whyMemRW}, {1, false, true, whyMemRW}},
-	"signature/subtle.NewED25519SignerFromPrivateKey":                         {{0, false, true, "the parameter is a POINTER to the caller's ed25519.PrivateKey, which the signer keeps: the sharing is visible in the signature (the function's comment does not mention it)"}},
-	"signature/subtle.NewED25519VerifierFromPublicKey":                        {{0, false, true, "the parameter is a POINTER to the caller's ed25519.PublicKey, which the verifier keeps: the sharing is visible in the signature (the function's comment does not mention it)"}},
 }
 
 func (d *fnDecl) exceptions() {
@@ -263,11 +261,13 @@ func translateBody(d *fnDecl) *bodyTr {
 	}
 	sort.Slice(roots, func(i, j int) bool { return roots[i].Pos() < roots[j].Pos() })
 	for _, r := range roots {
-		t.emit(&node{op: "make", r: t.classReg(r), pos: -1})
+		t.classReg(r)
 	}
 	for _, o := range namedRes {
-		if !isObjLike(o.Type()) || t.singleton(o) {
+		if !isObjLike(o.Type()) {
 			t.emit(&node{op: "make", r: t.reg(o), pos: -1})
+		} else {
+			t.classReg(o)
 		}
 	}
 	t.computeTracked()
@@ -275,7 +275,11 @@ func translateBody(d *fnDecl) *bodyTr {
 	if t.addrSlice && t.derefAssign {
 		t.fail("takes the address of a byte-slice variable and assigns through a pointer to a slice")
 	}
-	t.body = nSeq(entry)
+	var pre []*node
+	for _, r := range t.entryMakes {
+		pre = append(pre, &node{op: "make", r: r, pos: -1})
+	}
+	t.body = nSeq(append(pre, entry...))
 	return t
 }
 
@@ -627,7 +631,7 @@ func bodiesV(decls []*fnDecl) string {
 		"   types of the object parameters, the body. *)\n")
 	b.WriteString("From Coq Require Import List String.\nFrom Tink Require Import Heap HeapProg.\nImport ListNotations.\nOpen Scope string_scope.\n")
 	b.WriteString("Record fn_body := mkBody { fb_pkg : string; fb_fn : string; fb_api : bool; fb_nregs : nat; fb_np : nat;\n" +
-		"  fb_wflags : list bool; fb_kflags : list bool; fb_objs : list nat; fb_ptypes : list (nat * string); fb_prog : stmt }.\n")
+		"  fb_wflags : list bool; fb_kflags : list bool; fb_objs : list nat; fb_classes : list nat; fb_ptypes : list (nat * string); fb_prog : stmt }.\n")
 	b.WriteString("Definition T := true.\nDefinition F := false.\n")
 	nTr, nUn, nInstr, nApi, nCalls, nFail := 0, 0, 0, 0, 0, 0
 	var untr [][3]string
@@ -687,8 +691,8 @@ func bodiesV(decls []*fnDecl) string {
 			}
 		}
 		fmt.Fprintf(&b, "\n  (* #%d, line %d; registers: %s *)", tableIndex[d.key], d.p.fset.Position(d.fd.Pos()).Line, strings.ReplaceAll(strings.Join(nm, " "), "*)", "* )"))
-		fmt.Fprintf(&b, "\n  mkBody %s %s %s %d %d [%s] [%s] [%s] [%s]\n    (", coqStr(d.rel), coqStr(d.name), api, len(d.wflags), d.tr.np,
-			flagList(d.wflags), flagList(d.kflags), joinInts(objs), strings.Join(pts, "; "))
+		fmt.Fprintf(&b, "\n  mkBody %s %s %s %d %d [%s] [%s] [%s] [%s] [%s]\n    (", coqStr(d.rel), coqStr(d.name), api, len(d.wflags), d.tr.np,
+			flagList(d.wflags), flagList(d.kflags), joinInts(objs), joinInts(d.tr.entryMakes), strings.Join(pts, "; "))
 		d.tr.body.coq(&b)
 		b.WriteString(")")
 		if d.strict {
@@ -775,6 +779,14 @@ func bodiesV(decls []*fnDecl) string {
 		failed = append(failed, coqStr(d))
 	}
 	fmt.Fprintf(&b, "Definition c19_packages_failed_to_load : list string := [%s].\n", strings.Join(failed, "; "))
+	var uj []string
+	for k := range unjoined {
+		uj = append(uj, coqStr(k))
+	}
+	sort.Strings(uj)
+	b.WriteString("(* untranslated library methods that implement a standard-library interface method: calls through that\n" +
+		"   interface are judged, for them, by the trusted call table alone *)\n")
+	fmt.Fprintf(&b, "Definition c19_unjoined_implementers : list string := [%s].\n", strings.Join(uj, "; "))
 	fmt.Fprintf(&b, "Definition c19_bodies_helpers_with_interface_parameters : nat := %d.\n", nHelp)
 	fmt.Fprintf(&b, "Definition c19_bodies_function_literals : nat := %d.\n", nLit)
 	fmt.Fprintf(&b, "Definition c19_bodies_considered : nat := %d.\n", len(decls))
